@@ -290,6 +290,10 @@ def _answers(g, n, arcs, which):
                 aux['dsets'].append(None)
         hashes[1] = C.hash_tokens(t)
     def as_node(v):
+        # the graph's own node object, or a FRESH Node carrying only the identifier (no edges of its own, not held by any graph)
+        if (v + len(arcs)) % 2:
+            from cai_causal_graph.graph_components import Node
+            return Node(N[v])
         return g.get_node(N[v])
 
     def same_with_nodes(f, x, y, ref):
